@@ -63,6 +63,8 @@ class DefaultTrackerHandler(ResultHandler):
         self._constraint_tolerance = constraint_tolerance
         self._sources = set() if sources is None else sources
         self["results"] = None
+        # The optimal result and its objective value in the optimizer domain:
+        self._optimal: tuple[FunctionResults | None, float | None] = (None, None)
 
     def handle_event(self, event: Event) -> None:
         """Handle an event.
@@ -80,12 +82,18 @@ class DefaultTrackerHandler(ResultHandler):
             filtered_results: FunctionResults | None = None
             match self._what:
                 case "best":
-                    filtered_results = _update_optimal_result(
+                    optimal_objective = (
+                        self._optimal[1] if self["results"] is self._optimal[0] else None
+                    )
+                    filtered_results, optimal_objective = _update_optimal_result(
                         self["results"],
+                        optimal_objective,
                         results,
                         transformed_results,
                         self._constraint_tolerance,
                     )
+                    if filtered_results is not None:
+                        self._optimal = (filtered_results, optimal_objective)
                 case "last":
                     filtered_results = _get_last_result(
                         results,
